@@ -75,8 +75,10 @@ func enumSkels(maxOps, maxN, startSize int) [][]skel {
 
 // caseSpec is one generated case.
 type caseSpec struct {
-	ID    string  `json:"id"`
-	Masks []int   `json:"pool_masks"` // pool[0] is the driver (inbound only)
+	ID    string `json:"id"`
+	Masks []int  `json:"pool_masks"` // pool[0] is the driver (inbound only)
+	// Mixed[i] != 0: pool entry i is form Mixed[i] of a mixed-receiver type (the mask is then what that form implements)
+	Mixed []int   `json:"mixed_receiver_forms,omitempty"`
 	Prog  []opRec `json:"program"`
 	Mode  string  `json:"mode"`
 	mode  mon.Mode
@@ -124,6 +126,14 @@ func randomCase(c *core.Ctx, idx, gi int) caseSpec {
 	np := 1 + rng.Intn(8)
 	for j := 0; j < np; j++ {
 		cs.Masks = append(cs.Masks, randMask(rng))
+	}
+	if rng.Intn(4) == 0 {
+		cs.Mixed = make([]int, np+1)
+		for j := 1; j <= np; j++ {
+			if rng.Intn(2) == 0 {
+				cs.Mixed[j] = 1 + rng.Intn(6)
+			}
+		}
 	}
 	size := 3
 	for nops := 1 + rng.Intn(12); nops > 0; nops-- {
@@ -183,6 +193,15 @@ func runC03(c *core.Ctx) {
 		t := &trial{c: c, cs: cs, tailClose: c.Rand("close", cs.ID).Intn(c.Scale(2, 10)) == 0}
 		t.run()
 	}
+	// first case of every worker process: mixed-receiver types, for A and C the value form is added before the pointer
+	// form, for B the pointer form first (whatever the library remembers per handler type is decided by the first use)
+	warm := caseSpec{ID: fmt.Sprintf("mixed-first-use-s%d", c.Shard), Masks: []int{kRead, 1, 1, 1, 1, 1, 1}, Mixed: []int{0, 1, 2, 4, 3, 5, 6}}
+	for j := 1; j <= 6; j++ {
+		warm.Prog = append(warm.Prog, opRec{Op: opNames[opLast], Kind: opLast, Hs: []int{j}})
+	}
+	warm.mode, warm.queue = pickMode(c.Shard)
+	warm.Mode = warm.mode.String()
+	exec(warm, "mixed_first_use_programs")
 	for rep := 0; rep < reps; rep++ {
 		for idx, sk := range skels {
 			if gi++; c.Mine(gi) {
@@ -242,6 +261,11 @@ func (t *trial) run() {
 		var h netty.Handler
 		if i == 0 {
 			h = &driver{b: b, parked: make(chan struct{})}
+		} else if i < len(cs.Mixed) && cs.Mixed[i] != 0 {
+			h = mkMixed(cs.Mixed[i], b)
+			mask = implMask(h)
+			b.mask = mask
+			c.Count("mixed_receiver_handlers", 1)
 		} else {
 			h = mkProbe[mask](b)
 		}
